@@ -54,8 +54,8 @@ ENGINES.append({"name": "drain-replay", "path": "tools/draincheck.py", "serves_p
 HOOK_COMMITS.extend(["3f17fd0", "90d5fc6", "7f02039"])
 
 _WR_TEXT = {
-    "C04": "after quiescence and one maintenance run the weight of the entries present is within the maximum, nothing heavier than the maximum is retained, zero-weight entries are never evicted (WriteReplay.tla: Bound; real cache: WRAudit.tla over the audit record)",
-    "C05": "after quiescence the table, the three policy deques with their running totals, the timer wheel and the public views (WeightedSize, EstimatedSize, All, Hottest, Coldest) agree (WriteReplay.tla: Agree; real cache: WRAudit.tla)",
+    "C04": "after quiescence and one maintenance run the weight of the entries present is within the maximum, nothing heavier than the maximum is retained, zero-weight entries are never evicted (WriteReplay.tla: Bound; real cache: WRAudit.tla over the audit record); Policy.tla: Bound / MaximaOK with the real policy replayed on it (PolicyTrace.tla); a read that extends a deadline while the expiration sweep runs (SweepHist.tla)",
+    "C05": "after quiescence the table, the three policy deques with their running totals, the timer wheel and the public views (WeightedSize, EstimatedSize, All, Hottest, Coldest) agree (WriteReplay.tla: Agree; real cache: WRAudit.tla); the eviction policy object itself is modelled at pointer level (Policy.tla: WellFormed, Agree, MaximaOK incl. the hill climber and tasks applied out of order) and every call on the real policy is replayed on that model (PolicyTrace.tla)",
     "C06": "sequential fold: the atomic and the asynchronous handler receive the same bag of (key, value, cause) in every call, operation-caused events are exactly the predicted ones (incl. Expiration for writes over / removals of expired-unswept entries), all 12 layouts; concurrent: values written = values present + values reported; each removed value reaches OnAtomicDeletion and OnDeletion exactly once with the same cause; per key the atomic handler sees removals in installation order (WriteReplay.tla: Once/NeverTwice; real cache: WRAudit.tla)",
 }
 for _p in ("C04", "C05", "C06"):
@@ -65,7 +65,7 @@ for _p in ("C04", "C05", "C06"):
         "text": _WR_TEXT[_p],
         "design_ref": "DESIGN.md section 6 (%s), section 3.2 B2" % _p,
         "note": "bounded model (2-3 writers, 1-2 keys, 2-3 ops); real runs: 2-4 writers, gate-scheduled (random/PCT) or yield-perturbed free running, frozen clock; audit reads unexported state through in-package overlay tests",
-        "technique": "TLA+ spec (WriteReplay.tla) model-checked with TLC + controlled-schedule runs of the real cache whose terminal audit record is judged by a TLA+ trace spec (WRAudit.tla)",
+        "technique": "TLA+ specs (WriteReplay.tla, Policy.tla) model-checked with TLC + controlled-schedule runs of the real cache whose terminal audit record is judged by a TLA+ trace spec (WRAudit.tla) + deterministic-fold trace validation of the real policy object against Policy.tla (PolicyTrace.tla)",
     }
 ENGINES.append({"name": "write-replay", "path": "tools/wrcheck.py", "serves_properties": ["C04", "C05", "C06"],
                 "kind_free_text": "TLC on spec/WriteReplay.tla; harness/otter/verif_wr_test.go (gate scheduler + audit); spec/WRAudit.tla judges audit records"})
@@ -123,10 +123,10 @@ ENGINES.append({"name": "timer-wheel", "path": "tools/c13check.py", "serves_prop
 CHECKS["C18"] = c18check.run
 META["C18"] = {
     "engine": "sketch-fold",
-    "text": "Sketch.tla: for every hash assignment of a small concrete sketch the estimate never under-counts the recordings of the period, never exceeds 15, is halved exactly by aging and is zero before initialisation; the real sketch (capacities 1..4097 incl. growth, fresh seeds) and policy.admit with injected randomness are validated call by call by SketchTrace.tla",
+    "text": "Sketch.tla: for every hash assignment of a small concrete sketch the estimate never under-counts the recordings of the period, never exceeds 15, is halved exactly by aging and is zero before initialisation; the real sketch (capacities 1..4097 incl. growth, fresh seeds) and policy.admit with injected randomness are validated call by call by SketchTrace.tla; the admission decisions of real eviction passes are replayed on Policy.tla (PolicyTrace.tla: a victim is displaced only by a candidate with a greater estimate or by the random admission)",
     "design_ref": "DESIGN.md section 6 (C18)",
     "note": "hash seeds and capacities are sampled; the exhaustive part is a 4x2 / 4x3 counter sketch with 2-3 keys",
-    "technique": "TLA+ spec (Sketch.tla) model-checked with TLC + deterministic-fold trace validation of the real sketch and admission rule (SketchTrace.tla)",
+    "technique": "TLA+ specs (Sketch.tla, Policy.tla) model-checked with TLC + deterministic-fold trace validation of the real sketch, admission rule and eviction passes (SketchTrace.tla, PolicyTrace.tla)",
 }
 ENGINES.append({"name": "sketch-fold", "path": "tools/c18check.py", "serves_properties": ["C18"],
                 "kind_free_text": "TLC on spec/Sketch.tla; harness/otter/verif_sketch_test.go; spec/SketchTrace.tla"})
